@@ -254,3 +254,14 @@ Print Assumptions C10_store_before_transfer.
 Print Assumptions C10_store_before_transfer_bytes.
 Print Assumptions C10_store_keys.
 Print Assumptions C10_store_keys_bytes.
+
+(* ---- M3 (Conn/Sem3.v): the same for EVERY behaviour of the transport (free room following any schedule: writes accepted
+   in part, refused, never accepted again), every latency of localize(), every cancellation of a pending write or of a
+   pending missed-keep-alive verdict by the race.  Proofs in Conn/Sem3Proofs.v. ---- *)
+From Passage Require Import Lib.Bytes Codec.Desc Gen.PacketsGen Conn.Types Conn.Prog Conn.Sem1 Conn.Sem2 Conn.Sem3 Conn.Monitor Conn.Order Conn.Checks Conn.Switch Conn.Sem3Proofs.
+
+Theorem C10_backpressure : forall o cfg e encf loclat cap sch s,
+  ok (step_with (chk_c10 o cfg)) m_init (untime (trace_of (run3 o cfg e encf loclat cap sch s))).
+Proof. exact run3_c10_ok. Qed.
+
+Print Assumptions C10_backpressure.
